@@ -116,6 +116,109 @@ of &&, ||, ==, != (and of the difference under abs), a > b being b < a. A copy/p
 					}
 					return types.ExprString(e)
 				}
+				// the conditions of the enclosing if / switch clauses of a node, as canonical atoms (trichotomy applied:
+				// not (a == b) and not (b < a) is (a < b))
+				contextOf := func(target ast.Node, swap bool) []string {
+					var ctx []string
+					var walk func(n ast.Node) bool
+					neg := func(e ast.Expr) string { return "!" + canon(e, swap) }
+					walk = func(n ast.Node) bool {
+						if n == nil || target.Pos() < n.Pos() || target.End() > n.End() {
+							return false
+						}
+						switch y := n.(type) {
+						case *ast.IfStmt:
+							if y.Body.Pos() <= target.Pos() && target.End() <= y.Body.End() && ast.Node(y) != target {
+								ctx = append(ctx, canon(y.Cond, swap))
+							} else if y.Else != nil && y.Else.Pos() <= target.Pos() && target.End() <= y.Else.End() {
+								ctx = append(ctx, neg(y.Cond))
+							}
+						case *ast.SwitchStmt:
+							if y.Tag == nil {
+								for _, cl := range y.Body.List {
+									cc := cl.(*ast.CaseClause)
+									inside := cc.Pos() <= target.Pos() && target.End() <= cc.End()
+									if inside {
+										if cc.List != nil {
+											for _, e := range cc.List {
+												ctx = append(ctx, canon(e, swap))
+											}
+										} else {
+											// default: none of the other clauses
+											for _, cl2 := range y.Body.List {
+												for _, e := range cl2.(*ast.CaseClause).List {
+													ctx = append(ctx, neg(e))
+												}
+											}
+										}
+										break
+									}
+									if cc.List != nil {
+										for _, e := range cc.List {
+											ctx = append(ctx, neg(e))
+										}
+									}
+								}
+								// clauses after the matching one do not constrain it: remove the negations added for them
+							}
+						}
+						return true
+					}
+					ast.Inspect(fd.Body, walk)
+					// a clause after the target's own clause must not count: rebuild for switches in order (done above by the break)
+					// trichotomy
+					set := map[string]bool{}
+					for _, a := range ctx {
+						set[a] = true
+					}
+					for a := range set {
+						if strings.HasPrefix(a, "!(") && strings.Contains(a, " == ") {
+							inner := strings.TrimSuffix(strings.TrimPrefix(a, "!("), ")")
+							parts := strings.SplitN(inner, " == ", 2)
+							if len(parts) != 2 {
+								continue
+							}
+							x, y := parts[0], parts[1]
+							lt1, lt2 := "("+x+" < "+y+")", "("+y+" < "+x+")"
+							switch {
+							case set["!"+lt1]:
+								delete(set, a)
+								delete(set, "!"+lt1)
+								set[lt2] = true
+							case set["!"+lt2]:
+								delete(set, a)
+								delete(set, "!"+lt2)
+								set[lt1] = true
+							case set[lt1] || set[lt2]:
+								delete(set, a) // implied
+							}
+						}
+					}
+					var out []string
+					for a := range set {
+						out = append(out, a)
+					}
+					sort.Strings(out)
+					return out
+				}
+				type exitRec struct {
+					node       ast.Node
+					cond       ast.Expr
+					full, swap string
+				}
+				var exits []exitRec
+				retCanon := func(body *ast.BlockStmt, swap bool) string {
+					for _, st := range body.List {
+						if r, ok := st.(*ast.ReturnStmt); ok {
+							var parts []string
+							for _, e := range r.Results {
+								parts = append(parts, canon(e, swap))
+							}
+							return strings.Join(parts, ",")
+						}
+					}
+					return ""
+				}
 				n := 0
 				check := func(cond ast.Expr, what string) {
 					// only conditions that mention a role variable
@@ -134,12 +237,40 @@ of &&, ||, ==, != (and of the difference under abs), a > b being b < a. A copy/p
 					n++
 					key := fmt.Sprintf("%s:%s#%d:roles-exchangeable", funcName(p, fd), what, n)
 					a, b := canon(cond, false), canon(cond, true)
+					if a != b && what == "exit" {
+						// the mirror image may be another exit of the function (a switch over l1 == l2 / l1 > l2 / default)
+						for _, e := range exits {
+							if e.cond == cond {
+								for _, o := range exits {
+									if o.cond != cond && o.full == e.swap {
+										b = a
+									}
+								}
+							}
+						}
+					}
 					if a == b {
-						s.Pass(nil, key, cond.Pos(), "invariant under the exchange of the two operands")
+						s.Pass(nil, key, cond.Pos(), "invariant under the exchange of the two operands (by itself, or with the exit that mirrors it)")
 					} else {
 						s.Fail(nil, key, cond.Pos(), "the condition changes when the roles of the two operands are exchanged ("+a+"  vs  "+b+"): the answer depends on which sequence is given first — a query one base shorter than a reference is, or is not, at one difference of it according to the order of the arguments")
 					}
 				}
+				ast.Inspect(fd.Body, func(m ast.Node) bool {
+					if x, ok := m.(*ast.IfStmt); ok {
+						returns := false
+						for _, st := range x.Body.List {
+							if _, ok := st.(*ast.ReturnStmt); ok {
+								returns = true
+							}
+						}
+						if returns {
+							f := strings.Join(append(contextOf(x, false), canon(x.Cond, false)), " && ") + " => " + retCanon(x.Body, false)
+							w := strings.Join(append(contextOf(x, true), canon(x.Cond, true)), " && ") + " => " + retCanon(x.Body, true)
+							exits = append(exits, exitRec{x, x.Cond, f, w})
+						}
+					}
+					return true
+				})
 				ast.Inspect(fd.Body, func(m ast.Node) bool {
 					switch x := m.(type) {
 					case *ast.ForStmt:
@@ -206,7 +337,7 @@ reported as no difference at all.`,
 				s.Undecided(nil, key, fd.Pos(), "lengths of the two operands not read")
 				return
 			}
-			env := &linEnv{info: info, vars: map[types.Object]linForm{}, defs: map[types.Object][]ast.Expr{}, atoms: map[string]bool{}, lens: map[string]bool{}, elems: map[string]linForm{}}
+			env := &linEnv{info: info, vars: map[types.Object]linForm{}, defs: map[types.Object][]ast.Expr{}, atoms: map[string]bool{}, lens: map[string]bool{}, elems: map[string]linForm{}, maxPaths: 8192}
 			n, bad := 0, token.NoPos
 			linWalk([]linPath{{env: env}}, fd.Body.List, func(pth linPath, st ast.Stmt) {
 				r, ok := st.(*ast.ReturnStmt)
@@ -312,7 +443,7 @@ difference.`,
 					return
 				}
 			}
-			env := &linEnv{info: info, vars: map[types.Object]linForm{}, defs: map[types.Object][]ast.Expr{}, atoms: map[string]bool{}, lens: map[string]bool{}, elems: map[string]linForm{}}
+			env := &linEnv{info: info, vars: map[types.Object]linForm{}, defs: map[types.Object][]ast.Expr{}, atoms: map[string]bool{}, lens: map[string]bool{}, elems: map[string]linForm{}, maxPaths: 8192}
 			n, bad, why := 0, token.NoPos, ""
 			linWalk([]linPath{{env: env}}, fd.Body.List, func(pth linPath, st ast.Stmt) {
 				r, ok := st.(*ast.ReturnStmt)
